@@ -293,7 +293,15 @@ fn check_inproc(c: &Case, ctx: &Ctx) -> Outcome {
 fn check_cli(c: &Case, ctx: &Ctx) -> Outcome {
     let m = materialise(c);
     let dir = ctx.case_dir();
-    let (f1, f2) = write_reads(&dir, &m);
+    let (mut f1, mut f2) = write_reads(&dir, &m);
+    // a third of the cases: gzip-compressed read files
+    if (c.k + m.reads.len()) % 3 == 0 {
+        for f in [&mut f1, &mut f2] {
+            let gz = format!("{f}.gz");
+            cli::gzip(std::path::Path::new(f.as_str()), std::path::Path::new(&gz));
+            *f = gz;
+        }
+    }
     std::fs::write(dir.join("list.txt"), format!("smp\t{f1}\t{f2}\n")).unwrap();
     let (ks, cs, qs) = (c.k.to_string(), c.min_count.to_string(), c.min_qual.to_string());
     let rule = ["no-filter", "middle", "strict"][c.rule as usize % 3];
